@@ -450,8 +450,8 @@ class PauliSum:
         _validate_type(other)
 
         if isinstance(other, (int, float, complex)):
-            constant_term = PauliTerm("I0", complex(other))
-            return self == PauliSum([constant_term])
+            # Compare as a constant term, so that the empty sum equals the number zero.
+            return self == PauliTerm("I0", complex(other))
 
         if isinstance(other, PauliTerm):
             if len(self) == 0:
